@@ -440,7 +440,7 @@ def run_property(prop_id, tier, seed=None, replay=None):
     with open(os.path.join(EVIDENCE_DIR, f"{prop_id}.json"), "w") as f:
         json.dump(ev, f, indent=1, sort_keys=True, default=_json_default)
     print(
-        f"{prop_id} tier={tier} seed={seed} evaluations={evaluations} distinct_nontrivial={len(nontriv)} "
+        f"{prop_id} tier={tier} seed={seed} evaluations={evaluations} distinct_nontrivial={cov['distinct_nontrivial']} "
         f"violations={len(violations)} budget_exhausted={budget_exhausted} wall={ev['wall_s']}s",
         flush=True,
     )
